@@ -6,6 +6,7 @@ import SamlModel.Model.SloDriver
 import SamlModel.Model.AqDriver
 import SamlModel.Model.MdDriver
 import SamlModel.Exec.C16
+import SamlModel.Model.LibDriver
 /-! Driver.step: dispatch of one protocol line.  Unknown or unparsable ops yield `bad-op`. -/
 namespace Driver
 
@@ -20,6 +21,7 @@ def step (line : String) : String :=
   | "slo" :: args => (SloDriver.run args).getD "bad-op"
   | "aq" :: args => (AqDriver.run args).getD "bad-op"
   | "md" :: args => (MdDriver.run args).getD "bad-op"
+  | "lib" :: args => (LibDriver.run args).getD "bad-op"
   | "chk" :: args => (ChkDriver.run args).getD "bad-op"
   | _ => "bad-op"
 
